@@ -92,3 +92,30 @@ Print Assumptions C17_invalid_utf8_is_badreply.
 Theorem C17_utf8_roundtrip : forall t, valid_text t -> utf8_dec (utf8_enc t) = Some t.
 Proof. exact utf8_dec_enc. Qed.
 Print Assumptions C17_utf8_roundtrip.
+
+(* Constructing a reply never raises on account of its text.  reply.py has TWO
+   patterns: the message setter peels what message_esc_pattern matches and hands
+   group(1) to the enhanced_status_code setter, which raises ValueError unless
+   esc_pattern matches that string.  reply_ctor / set_message_chk / reply_recv_chk
+   model that chain statement by statement; new_reply / reply_recv (used by the
+   theorems above) store the captured pieces directly.  The two agree for EVERY
+   code and text: whatever the message pattern captures, the ESC setter accepts,
+   with the same pieces -- Reply(code, text) raises only for a code that
+   code_pattern refuses, and Reply.recv never raises anything but BadReply /
+   ConnectionLost on account of the text a peer sent. *)
+Theorem C17_construction_total : forall code v,
+  reply_ctor udigit uspace code v =
+  if ctor_code_ok udigit code then CtorOk (new_reply udigit uspace code v) else CtorBadCode.
+Proof. exact (ctor_total udigit uspace udigit_46). Qed.
+Print Assumptions C17_construction_total.
+
+Theorem C17_esc_patterns_agree : forall v k subj det rest,
+  match_esc udigit uspace v = Some (k, subj, det, rest) ->
+  match_esc_pattern udigit (k :: 46 :: subj ++ 46 :: det) = Some (k, subj, det).
+Proof. exact (patterns_agree udigit uspace udigit_46). Qed.
+Print Assumptions C17_esc_patterns_agree.
+
+Theorem C17_recv_construction_total : forall buf chunks,
+  reply_recv_chk udigit uspace buf chunks = Some (reply_recv udigit uspace buf chunks).
+Proof. exact (recv_chk_total udigit uspace udigit_46). Qed.
+Print Assumptions C17_recv_construction_total.
